@@ -21,31 +21,36 @@ def r(x):
 
 
 P53 = 2 ** 53
-# numeric line: position -> (integer literal or None, [real literals])   (true order = position, by construction)
-NUM = {
-    0: (None, [r(float("-inf"))]),
-    1: (None, [r(-1e308)]),
-    2: ("i:-9223372036854775808", [r(-9223372036854775808.0)]),
-    3: ("i:-9223372036854775807", []),
-    4: ("i:%d" % -(P53 + 1), []),
-    5: ("i:%d" % -P53, [r(-float(P53))]),
-    6: (None, [r(-1.5)]),
-    7: ("i:-1", [r(-1.0)]),
-    8: (None, [r(-5e-324)]),
-    9: ("i:0", [r(0.0), r(-0.0)]),
-    10: (None, [r(5e-324)]),
-    11: (None, [r(0.5)]),
-    12: ("i:1", [r(1.0)]),
-    13: (None, [r(1.0000000000000002)]),
-    14: ("i:%d" % P53, [r(float(P53))]),
-    15: ("i:%d" % (P53 + 1), []),
-    16: ("i:%d" % (P53 + 2), [r(float(P53 + 2))]),
-    17: ("i:9223372036854775806", []),
-    18: ("i:9223372036854775807", []),
-    19: (None, [r(9223372036854775808.0)]),
-    20: (None, [r(1e308)]),
-    21: (None, [r(float("inf"))]),
-}
+# numeric line in true order: (integer literal or None, [real literals]); position = index (by construction)
+_NUM = [
+    (None, [r(float("-inf"))]),
+    (None, [r(-1e308)]),
+    ("i:-9223372036854775808", [r(-9223372036854775808.0)]),
+    ("i:-9223372036854775807", []),
+    ("i:%d" % -(2 ** 60), [r(-float(2 ** 60))]),
+    ("i:%d" % -(P53 + 1), []),
+    ("i:%d" % -P53, [r(-float(P53))]),
+    (None, [r(-1.5)]),
+    ("i:-1", [r(-1.0)]),
+    (None, [r(-5e-324)]),
+    ("i:0", [r(0.0), r(-0.0)]),
+    (None, [r(5e-324)]),
+    (None, [r(0.5)]),
+    ("i:1", [r(1.0)]),
+    (None, [r(1.0000000000000002)]),
+    ("i:%d" % P53, [r(float(P53))]),
+    ("i:%d" % (P53 + 1), []),
+    ("i:%d" % (P53 + 2), [r(float(P53 + 2))]),
+    ("i:%d" % (P53 + 4), [r(float(P53 + 4))]),
+    ("i:%d" % (2 ** 60), [r(float(2 ** 60))]),
+    ("i:1700000000000000000", [r(1.7e18)]),
+    ("i:9223372036854775806", []),
+    ("i:9223372036854775807", []),
+    (None, [r(9223372036854775808.0)]),
+    (None, [r(1e308)]),
+    (None, [r(float("inf"))]),
+]
+NUM = dict(enumerate(_NUM))
 TEXT = ["t:", "t:a", "t:a\u0001", "t:aa", "t:ab", "t:b", "t:\u00e9", "t:\u4e2d"]
 BLOB = ["x:", "x:00", "x:0000", "x:61", "x:ff"]
 
@@ -96,6 +101,9 @@ def run(prop, tier):
     for j, p in enumerate(sel):
         la, lb = lits(p["a"], rng)[0], lits(p["b"], rng)[0]
         depths = [0, 6, 40] if tier == "thorough" else [rng.choice([0, 6, 40])]
+        if tier != "thorough" and p["cmp"] == 0 and la != lb:
+            # numerically equal keys of different representation hash to different tree layers: multi-level trees
+            depths = [6, 40]
         for dp in depths:
             epn = rng.choice([2, 3]) if dp else rng.choice([2, 4096, 0])
             steps = [{"op": "open", "c": "w", "mode": "rw", "shadow": 1}]
@@ -150,7 +158,7 @@ def run(prop, tier):
     coverage = {
         "evaluations": len(cmps) + nsql,
         "distinct_nontrivial": len({(c["a"], c["b"]) for c in cmps if c["a"] != c["b"]}),
-        "rule": "every ordered pair of the 42 abstract keys of KeyOrder.tla x every concrete representative is compared directly; pairs are inserted (a then b) at tree depths 1-3 into s3db and a native table; distinct = distinct ordered pairs of different literals",
+        "rule": "every ordered pair of the abstract keys of KeyOrder.tla x every concrete representative is compared directly; pairs are inserted (a then b) at tree depths 1-3 into s3db and a native table; distinct = distinct ordered pairs of different literals",
         "samples": [cmps[5], {"scenario": scen[1]["id"], "steps": scen[1]["steps"][-14:]}],
         "states": d, "transitions": g, "traces_validated_against_impl": len(scen), "trace_events_validated": events,
         "generator_runs": notes, "harness": info, "exhaustive": tier == "thorough",
